@@ -20,6 +20,16 @@ def merge(ro, mo):
     return impl.add(ro, mo)
 
 
+def inspect_quietly(mo):
+    import contextlib, io
+    try:
+        with contextlib.redirect_stdout(io.StringIO()), warnings.catch_warnings():
+            warnings.simplefilter('ignore')
+            mo.inspect()
+    except Exception:  # noqa: BLE001 - what inspect() prints or raises is C20's
+        pass
+
+
 def monitor_history(oc, hseed, tier):
     """One live history; after every step: separation, message objects unchanged, re-use = fresh."""
     from . import impl
@@ -47,6 +57,8 @@ def monitor_history(oc, hseed, tier):
         except Exception:  # noqa: BLE001
             continue
         before_msg = str(mo)
+        if rng.random() < 0.5:
+            inspect_quietly(mo)                # inspecting a message is not editing it
         ro_text_before = str(ro)
         o_step = merge(ro, mo)
         if oc.extra.get('pairs') is not None and TJ.parse(ro_text_before) == state:
@@ -186,6 +198,7 @@ def targeted(oc):
             x = impl.load(ctext)
             s0 = str(x)
             merge(ro, x)
+            inspect_quietly(x)
             merge(ro, impl.load(etext))
             oc.evaluations += 1
             oc.in_domain += 1
@@ -299,6 +312,7 @@ def replay(pid, fl):
             except Exception:  # noqa: BLE001
                 continue
             s0 = str(mo)
+            inspect_quietly(mo)
             merge(ro, mo)
             merge(other, mo)
             merged.append((t, mo, s0))
